@@ -2026,7 +2026,7 @@ func (ts *TokenStore) revokeInternal(ctx context.Context, saltedID string, skipO
 			// really work either. So we clear revocation state so the user can
 			// try again.
 			ts.logger.Error("failed to mark token as revoked")
-			ts.tokensPendingDeletion.Store(entry.ID, false)
+			ts.tokensPendingDeletion.Store(saltedID, false)
 			return err
 		}
 	}
